@@ -1,6 +1,7 @@
 """C16: drives the real foolscap.reconnector.Reconnector with a fake Tub (getReference returns Deferreds the
 driver fires), a logging virtual clock and a scripted random.normalvariate; plus real-Tub scenarios on the
 in-memory network.  Nothing in /repo is edited: module attributes of foolscap.reconnector are rebound in-process."""
+import os
 from fractions import Fraction
 from twisted.internet import task, defer, error
 from twisted.internet.base import DelayedCall
@@ -888,3 +889,385 @@ def real_tub_scenarios():
         rc.random = saved
         E.reset_clock()
     return out
+
+
+# ------------------------------------------------------------------------- real Tub + Broker histories
+# The Reconnector of Tub A keeps a connection to Tub B over the in-memory network.  While it is connected, traffic of
+# every kind is put in flight (in either direction, at every stage of delivery), then the connection is lost, in one of
+# several ways, with or without a reactor turn between the last bytes and the loss.  The Reconnector invariant is then
+# evaluated on the REAL stack: attempts in flight are the Deferreds A.getReference gave the Reconnector, a watched
+# connection is a Broker that is still connected and still holds the Reconnector's disconnect watcher (or has queued its
+# delivery), timers are the reactor's pending calls of _timer_expired.
+TRAFFIC = ["a2b_call", "a2b_only", "b2a_call", "b2a_only", "a2b_gift"]
+LOSSES = ["cut", "b_hangup", "a_hangup"]
+
+
+class RealStack:
+    def __init__(self):
+        from foolscap.api import Referenceable
+        E.reset_clock()
+        self.saved_random = rc.random
+        self.rnd = ScriptedRandom()
+        rc.random = self.rnd
+        self.net = E.Net()
+        ps = E.pems_sorted(2)
+        stack = self
+
+        class Observer(Referenceable):
+            def remote_ping(self, x):
+                stack.a_ran.append(("ping", x))
+                return x
+
+            def remote_bye(self, x):
+                stack.a_ran.append(("bye", x))
+
+        class Server(Referenceable):
+            def remote_subscribe(self, observer):
+                stack.observers.append(observer)
+
+            def remote_echo(self, x):
+                stack.b_ran.append(("echo", x))
+                return x
+
+            def remote_note(self, x):
+                stack.b_ran.append(("note", x))
+
+            def remote_take(self, obj):
+                stack.b_ran.append(("take",))
+        self.Observer = Observer
+        self.a_ran, self.b_ran, self.observers = [], [], []
+        self.B = E.make_tub(self.net, "B", ps[1][1])
+        self.furl = self.B.registerReference(Server(), "server")
+        self.A = unstarted_tub(self.net, "A", ps[0][1])
+        self.cbs = []
+        self.user_lost = 0
+        self.stop_returned = False
+        self.late = []
+        self.invoked = []
+        self.attempts = []
+        self.errors = []
+        self.n_logged = len(E.logged_errors)
+        o_getref = self.A.getReference
+
+        def getref(url):
+            d = o_getref(url)
+            if url == self.furl:
+                if self.stop_returned:
+                    self.late.append("attempt")
+                box = dict(done=False)
+                self.attempts.append(box)
+
+                def fired(res):
+                    box["done"] = True
+                    return res
+                d.addBoth(fired)        # before the Reconnector adds its own callbacks
+            return d
+        self.A.getReference = getref
+        self.r = R = self.A.connectTo(self.furl, self._cb, "extra")
+        o_connected, o_failed, o_disc, o_timer = R._connected, R._failed, R._disconnected, R._timer_expired
+
+        def w_connected(rref):
+            self.invoked.append(("ok", ()))
+            return o_connected(rref)
+
+        def w_failed(f):
+            self.invoked.append(("fail", Fraction(0), 0))
+            return o_failed(f)
+
+        def w_disconnected():
+            self.invoked.append(("lost",))
+            return o_disc()
+
+        def w_timer():
+            self.invoked.append(("timer",))
+            return o_timer()
+        R._connected, R._failed, R._disconnected, R._timer_expired = w_connected, w_failed, w_disconnected, w_timer
+        self.w_disconnected = w_disconnected
+        o_start = R.startConnecting
+
+        def w_start(tub):
+            self.invoked.append(("start",))
+            return o_start(tub)
+        R.startConnecting = w_start
+
+    def close(self):
+        rc.random = self.saved_random
+        E.reset_clock()
+
+    def _cb(self, rref, extra):
+        if self.stop_returned:
+            self.late.append("callback")
+        self.cbs.append(rref)
+        rref.notifyOnDisconnect(self._user_lost)
+        rref.callRemote("subscribe", self.Observer()).addErrback(lambda f: None)
+
+    def _user_lost(self):
+        self.user_lost += 1
+
+    # -- network, without implicit reactor turns
+    def guarded(self, f, *a):
+        """what the reactor does with an exception escaping from a protocol callback: log it and go on"""
+        try:
+            return f(*a)
+        except Exception as e:
+            import traceback
+            tb = traceback.extract_tb(e.__traceback__)
+            self.errors.append("%s(%s) in %s" % (type(e).__name__, e, " <- ".join("%s:%d" % (os.path.basename(fr.filename), fr.lineno)
+                                                                                    for fr in reversed(tb[-3:]))))
+
+    def live_link(self):
+        ls = [l for l in self.net.links if not any(e.lost or e.closed for e in l.ends)]
+        return ls[-1] if ls else None
+
+    def deliver(self, link, side, nbytes=None):
+        """hand the next chunk written by `side` to the other end; no reactor turn"""
+        q = link.q[side]
+        if not q:
+            return False
+        d = q[0]
+        dst = link.ends[1 - side]
+        if d is not None and nbytes is not None and nbytes < len(d):
+            q[0] = d[nbytes:]
+            d = d[:nbytes]
+        else:
+            q.pop(0)
+        if d is None:
+            if not dst.lost:
+                dst.lost = True
+                dst.closed = True
+                self.guarded(dst.protocol.connectionLost, failure.Failure(error.ConnectionDone()))
+        elif not dst.closed and not dst.lost:
+            self.guarded(dst.protocol.dataReceived, d)
+        return True
+
+    def deliver_all(self, link, side):
+        while self.deliver(link, side):
+            pass
+
+    def local_closes(self, link):
+        for e in list(link.pending_local_close):
+            link.pending_local_close.remove(e)
+            if e.protocol and not e.lost:
+                e.lost = True
+                self.guarded(e.protocol.connectionLost, failure.Failure(error.ConnectionDone()))
+
+    def cut(self, link):
+        link.q = {0: [], 1: []}
+        for e in link.ends:
+            e.closed = True
+            if e in link.pending_local_close:
+                link.pending_local_close.remove(e)
+        for e in link.ends:
+            if e.protocol and not e.lost:
+                e.lost = True
+                self.guarded(e.protocol.connectionLost, failure.Failure(error.ConnectionLost()))
+
+    def turn(self):
+        self.guarded(E.turn)
+
+    def settle(self, rounds=60):
+        for i in range(rounds):
+            self.turn()
+            moved = False
+            for l in list(self.net.links):
+                for side in (0, 1):
+                    while self.deliver(l, side):
+                        moved = True
+                        self.turn()
+                if l.pending_local_close:
+                    self.local_closes(l)
+                    moved = True
+            if not moved:
+                break
+        self.turn()
+
+    # -- observation of the real stack
+    def my_timers(self):
+        return [c for c in E.clock.getDelayedCalls() if getattr(c.func, "__name__", "") == "w_timer"]
+
+    def watched_live(self):
+        n = 0
+        for b in list(self.A.brokers.values()) + [getattr(x.tracker, "broker", None) for x in self.cbs[-1:]]:
+            pass
+        seen = set()
+        for x in self.cbs:
+            b = x.tracker.broker
+            if id(b) in seen:
+                continue
+            seen.add(id(b))
+            if not b.disconnected and any(m[0] == self.w_disconnected for m in b.disconnectWatchers):
+                n += 1
+        return n
+
+    def queued_losses(self):
+        q = ev._theSimpleQueue
+        return len([1 for (cb, a, k) in q._events if cb == self.w_disconnected])
+
+    def activities(self):
+        inflight = len([b for b in self.attempts if not b["done"]])
+        return dict(inflight=inflight, watching=self.watched_live() + self.queued_losses(), timers=len(self.my_timers()))
+
+    def check(self, where):
+        """the invariant on the real stack, at a quiescent point"""
+        new = E.logged_errors[self.n_logged:]
+        self.n_logged = len(E.logged_errors)
+        R = self.r
+        act = self.activities()
+        n = act["inflight"] + act["watching"] + act["timers"]
+        if self.late or (self.stop_returned and (act["timers"] or R._active)):
+            sig = "oracle/callback-after-stop" if "callback" in self.late else (
+                "oracle/attempt-after-stop" if "attempt" in self.late else "oracle/timer-after-stop")
+            return Violation(sig, "%s: after stopConnecting() had returned: %s; retry timers %d, _active %r"
+                             % (where, ", ".join(self.late) or "nothing new", act["timers"], R._active))
+        if R._active and n != 1:
+            extra = ""
+            if self.errors:
+                extra = "; exceptions that escaped to the reactor: " + " | ".join(self.errors[:2])
+            return Violation("oracle/activity-count", "%s: the active Reconnector (state %r) has %d activities on the real "
+                             "Tub/Broker stack: attempts in flight %d, live watched connections %d, retry timers %d; the "
+                             "user's own disconnect handler fired %d times for %d connections%s"
+                             % (where, R.getReconnectionInfo().state, n, act["inflight"], act["watching"], act["timers"],
+                                self.user_lost, len(self.cbs), extra))
+        bound = R.maxDelay * (1 + R.jitter * ZMAX)
+        for c in self.my_timers():
+            dl = c.getTime() - E.clock.seconds()
+            if not (-1e-9 <= dl <= bound * (1 + 1e-9)):
+                return Violation("oracle/delay-out-of-range", "%s: retry timer due in %r s" % (where, dl))
+        return None
+
+    def observe(self):
+        """(model events since the last observation, observation) -- outputs are not observed on this stack"""
+        R = self.r
+        act = self.activities()
+        tm = R._timer
+        snap = dict(active=bool(R._active), stopped=getattr(R, "_stopped", None), tub=R._tub is not None,
+                    info=R.getReconnectionInfo().state, inflight=act["inflight"], watching=act["watching"],
+                    leaked=act["timers"] - (1 if (tm and tm in self.my_timers()) else 0))
+        evs, self.invoked = self.invoked, []
+        return evs, (flags_of(snap), [], R._delay, R.getDelayUntilNextAttempt(), [])
+
+
+def run_real_history(rounds, stop_stage="connected"):
+    """rounds: list of dict(traffic=[(kind, stage)], loss=..., turn_before_loss=bool).
+    -> (groups for the model comparison (state only), Violation or None, description)"""
+    S = RealStack()
+    groups = []
+    try:
+        with E.quiet():
+            S.A.startService()
+            S.settle()
+            groups.append(S.observe())
+            v = S.check("after the first connection")
+            if v is None and (len(S.cbs) != 1 or S.r.getReconnectionInfo().state != "connected"):
+                v = Violation("oracle/no-retry", "the Reconnector did not connect on the real stack: callbacks %d, state %r"
+                              % (len(S.cbs), S.r.getReconnectionInfo().state))
+            for k, rd in enumerate(rounds):
+                if v is not None:
+                    break
+                where = "round %d (traffic %s, loss %s%s)" % (k + 1, ",".join("%s@%d" % t for t in rd["traffic"]) or "none",
+                                                            rd["loss"], ", turn before the loss" if rd["turn_before_loss"] else "")
+                link = S.live_link()
+                rref = S.cbs[-1]
+                obs = S.observers[-1] if S.observers else None
+                swallow = lambda f: None
+                for kind, stage in rd["traffic"]:
+                    if kind == "a2b_call":
+                        rref.callRemote("echo", k).addErrback(swallow)
+                        if stage >= 1:
+                            S.deliver_all(link, 0)
+                        if stage >= 2:
+                            S.turn()
+                        if stage >= 3:
+                            S.deliver_all(link, 1)
+                    elif kind == "a2b_only":
+                        rref.callRemoteOnly("note", k)
+                        if stage >= 1:
+                            S.deliver_all(link, 0)
+                        if stage >= 2:
+                            S.turn()
+                    elif kind == "a2b_gift":
+                        rref.callRemote("take", S.Observer()).addErrback(swallow)
+                        if stage >= 1:
+                            S.deliver_all(link, 0)
+                        if stage >= 2:
+                            S.turn()
+                    elif kind == "b2a_call" and obs is not None:
+                        obs.callRemote("ping", k).addErrback(swallow)
+                        if stage >= 1:
+                            S.deliver_all(link, 1)
+                        if stage >= 2:
+                            S.turn()
+                        if stage >= 3:
+                            S.deliver_all(link, 0)
+                    elif kind == "b2a_only" and obs is not None:
+                        obs.callRemoteOnly("bye", k)
+                        if stage >= 1:
+                            S.deliver_all(link, 1)
+                        if stage >= 2:
+                            S.turn()
+                    elif kind == "partial":
+                        side = stage % 2
+                        if link.q[side] and link.q[side][0]:
+                            S.deliver(link, side, max(1, len(link.q[side][0]) // 2))
+                if rd["turn_before_loss"]:
+                    S.turn()
+                if rd["loss"] == "cut":
+                    S.cut(link)
+                elif rd["loss"] == "b_hangup":
+                    link.ends[1].protocol.transport.loseConnection()
+                    S.deliver_all(link, 1)          # data and FIN reach A in the same turn
+                    S.local_closes(link)
+                elif rd["loss"] == "a_hangup":
+                    rref.tracker.broker.transport.loseConnection()
+                    S.local_closes(link)
+                    S.deliver_all(link, 0)
+                S.settle()
+                groups.append(S.observe())
+                v = S.check(where + ", after the loss")
+                if v is None:
+                    t = S.my_timers()
+                    if S.r.getReconnectionInfo().state != "waiting" or len(t) != 1 or \
+                            abs((t[0].getTime() - E.clock.seconds()) - S.r.initialDelay) > 1e-9:
+                        v = Violation("oracle/backoff-not-restarted", "%s: after the loss the Reconnector is in state %r with "
+                                      "retry timers %r (expected one of initialDelay)"
+                                      % (where, S.r.getReconnectionInfo().state, [c.getTime() - E.clock.seconds() for c in t]))
+                if v is None and S.user_lost != k + 1:
+                    v = Violation("oracle/no-retry", "%s: the user's own notifyOnDisconnect fired %d times for %d losses"
+                                  % (where, S.user_lost, k + 1))
+                if v is not None:
+                    break
+                E.clock.advance(S.my_timers()[0].getTime() - E.clock.seconds())
+                if stop_stage == "connecting" and k == len(rounds) - 1:
+                    break
+                S.settle()
+                groups.append(S.observe())
+                v = S.check(where + ", after the retry")
+                if v is None and (len(S.cbs) != k + 2 or S.r.getReconnectionInfo().state != "connected"):
+                    v = Violation("oracle/no-retry", "%s: after the retry delay the Reconnector is in state %r, callbacks %d "
+                                  "(expected %d)" % (where, S.r.getReconnectionInfo().state, len(S.cbs), k + 2))
+            if v is None:
+                # stop (possibly with the attempt in flight); nothing may happen for two hours
+                ncb = len(S.cbs)
+                S.invoked.append(("stop",))
+                S.r.stopConnecting()
+                S.stop_returned = True
+                S.settle()
+                E.clock.advance(7200)
+                S.settle()
+                groups.append(S.observe())
+                v = S.check("after stopConnecting (%s)" % stop_stage)
+                if v is None and len(S.cbs) != ncb:
+                    v = Violation("oracle/callback-after-stop", "callbacks after stopConnecting on the real stack: %d"
+                                  % (len(S.cbs) - ncb))
+        return groups, v
+    except Exception as e:
+        import traceback
+        return groups, Violation("oracle/exception-in-reconnector", "real Tub/Broker history raised %s: %s"
+                                 % (type(e).__name__, traceback.format_exc()[-700:]))
+    finally:
+        S.close()
+
+
+def real_history_name(rounds, stop_stage):
+    return " ; ".join("%s %s%s" % (",".join("%s@%d" % tuple(t) for t in rd["traffic"]) or "idle", rd["loss"],
+                                   "+turn" if rd["turn_before_loss"] else "") for rd in rounds) + " ; stop while " + stop_stage
